@@ -520,7 +520,9 @@ class Walker:
             return e, None                     # age_, active_crossover_type_: not part of the signature
         if acc and acc[0] in ("mut", "elem"):
             if qt(n) == "<bound member function type>":
-                return e, ("cmethod", acc[1], acc[0], n)
+                # a member of the content itself, or of an element that is an object of a tracked class
+                how = "elem" if (tracked_class(qt(ks[0])) or tracked_class(dqt(ks[0]))) else "mut"
+                return e, ("cmethod", acc[1], how, n)
             if acc[0] == "elem" and name not in CONTENT:
                 return e, None                 # e.g. age_ of a team member
             return e, (("mut", acc[1]) if not is_const_type(qt(n)) else None)
@@ -540,7 +542,7 @@ class Walker:
         separate clang invocations the index is built from)"""
         base = kids(member_expr)[0]
         bt = qt(base)
-        cls = tracked_class(bt)
+        cls = tracked_class(bt) or tracked_class(dqt(base))
         const_obj = is_const_type(bt)
         return self.ix.resolve(cls, member_expr.get("name"), const_obj, nargs)
 
@@ -662,6 +664,8 @@ class Walker:
                 x = a0[1]
                 if opname == "operator=" and len(args) == 2 and self.is_hash_call(args[1], x):
                     eff.append(("reset", x, "recompute"))
+                elif opname == "operator=" and len(args) == 2 and is_empty_hash(args[1]):
+                    eff.append(("reset", x, "clear"))       # signature_ = hash_t()
                 else:
                     eff.append(("sigOther", x))
                 return seq(*eff), None
@@ -1083,6 +1087,18 @@ def is_copy_ctor(n):
     if "," in inside or not inside.strip():
         return False
     return tracked_class(inside.replace("&&", "&")) == cls
+
+
+def is_empty_hash(n):
+    """`hash_t()` / `hash_t{}` / `{}`: a default constructed (all zero = empty) hash"""
+    while n.get("kind") in ("ExprWithCleanups", "MaterializeTemporaryExpr", "CXXBindTemporaryExpr",
+                            "ImplicitCastExpr", "ParenExpr", "CXXFunctionalCastExpr") and len(kids(n)) == 1:
+        n = kids(n)[0]
+    if n.get("kind") in ("CXXTemporaryObjectExpr", "CXXConstructExpr") and "hash_t" in qt(n):
+        return all(a.get("kind") == "CXXDefaultArgExpr" for a in kids(n))
+    if n.get("kind") == "InitListExpr" and "hash_t" in qt(n) and not kids(n):
+        return True
+    return False
 
 
 def touches_handout(s):
